@@ -426,12 +426,15 @@ def run_property(prop, tier, seed, only=None):
         "violation_buckets": sorted({b for b, _, _ in violations}),
         "slow_shards": slow,
     }
-    weak = []
+    weak, mostly_raised = [], []
     for name, c in agg.per_test.items():
         tot = sum(v for k, v in c.items() if k != "nontrivial")
-        if tot >= 10 and (c.get("ok", 0) + c.get("fail", 0)) < 0.3 * tot:
-            weak.append(name)
+        if tot >= 10 and (c.get("ok", 0) + c.get("fail", 0) + c.get("raised", 0)) < 0.3 * tot:
+            weak.append(name)  # most cases rejected / inconclusive: the generator needs work
+        elif tot >= 10 and (c.get("ok", 0) + c.get("fail", 0)) < 0.3 * tot:
+            mostly_raised.append(name)  # autograd raises for most configurations (allowed outcome; reported)
     coverage["weak_generators"] = sorted(weak)
+    coverage["mostly_raised"] = sorted(mostly_raised)
     if prop.finalize:
         try:
             coverage.update(prop.finalize(agg))
